@@ -16,6 +16,7 @@ Inductive welem :=
 | WEmpty
 | WStmt (toks : list tk) (it : citem)       (* a member statement of the statement models *)
 | WFwd (key name : N)                       (* class-key Name ; *)
+| WOne (toks : list tk) (mk : N -> item)    (* any statement the loop reads in one step: using, enum, ... (abstract, see one_step) *)
 | WClass (w : wclass)
 with wclass :=
 | mkWC (key name : N) (vs : list bool) (ws : list wbase) (elems : list welem).   (* class-key Name [final..] [: bases] { elems } ; *)
@@ -29,6 +30,7 @@ Fixpoint welem_toks (e : welem) : list tk :=
   | WEmpty => [ktok SEMI]
   | WStmt toks _ => toks
   | WFwd key name => [ktok key; mkTk T_NAME name; ktok SEMI]
+  | WOne toks _ => toks
   | WClass (mkWC key name vs ws es) =>
       ktok key :: mkTk T_NAME name :: vs_toks vs ++ bases_toks ws ++ ktok LBRACE :: flat_map welem_toks es ++ [ktok RBRACE; ktok SEMI]
   end.
@@ -45,6 +47,7 @@ Fixpoint wclass_spec (acc : N) (w : wclass) : item :=
                        | WEmpty :: r => go a r
                        | WStmt _ it :: r => IC a it :: go a r
                        | WFwd k nm :: r => IFwd a [k] nm :: go a r
+                       | WOne _ mk :: r => mk a :: go a r
                        | WClass w' :: r => wclass_spec a w' :: go a r
                        end) (default_access [key]) es)
                    FinNone)
@@ -57,6 +60,7 @@ Fixpoint welems_spec (a : N) (l : list welem) : list item :=
   | WEmpty :: r => welems_spec a r
   | WStmt _ it :: r => IC a it :: welems_spec a r
   | WFwd k nm :: r => IFwd a [k] nm :: welems_spec a r
+  | WOne _ mk :: r => mk a :: welems_spec a r
   | WClass w' :: r => wclass_spec a w' :: welems_spec a r
   end.
 
@@ -68,6 +72,16 @@ Proof. reflexivity. Qed.
 
 Definition class_key (k : N) : Prop := k = T_class \/ k = T_struct \/ k = T_union.
 
+(* a statement the loop reads in one step, in a class body: whatever the budget, the access in force, the counter and the
+   continuation, the loop delivers [mk acc] and goes on behind the statement *)
+Definition one_step (n : nat) (dt : list (N * N)) (cls dcls : N) (toks : list tk) (mk : N -> item) : Prop :=
+  forall rest, exists f0, forall f, (f0 <= f)%nat -> forall k' acc aid,
+    body (S k') n f dt (Some (cls, dcls)) acc aid (toks ++ rest)
+    = match body k' n f dt (Some (cls, dcls)) acc aid rest with
+      | DOk (l, a, rr) => DOk (mk acc :: l, a, rr)
+      | DErr e => DErr e
+      end.
+
 Fixpoint welem_ok (n : nat) (dt : list (N * N)) (cls dcls : N) (e : welem) {struct e} : Prop :=
   match e with
   | WAccess kw => assocN (kty kw) tu_table = Some H_process_access_specifier
@@ -77,6 +91,7 @@ Fixpoint welem_ok (n : nat) (dt : list (N * N)) (cls dcls : N) (e : welem) {stru
       (forall rest, class_stmt_head false (toks ++ rest) = CHNot) /\
       forall rest, ev (fun f => member_decl n f cls dcls (toks ++ rest)) (DOk (it, rest))
   | WFwd key _ => class_key key
+  | WOne toks mk => one_step n dt cls dcls toks mk
   | WClass (mkWC key name vs ws es) =>
       class_key key /\ forallb access_ok ws = true /\ (match vs with f :: _ => f = true | [] => True end) /\
       (fix all (l : list welem) : Prop :=
@@ -221,11 +236,11 @@ Proof.
   - exists 0%nat. intros f _. cbn [flat_map app welems_spec body]. unfold stop_tok in Hstop. rewrite Hstop.
     rewrite N.eqb_refl. reflexivity.
   - cbn [welems_ok] in Hok. destruct Hok as [He Hq]. cbn [ssize] in Hk.
-    assert (He1 : (1 <= esize e)%nat) by (destruct e as [| | | |[? ? ? ? ?]]; cbn [esize]; lia).
+    assert (He1 : (1 <= esize e)%nat) by (destruct e as [| | | | |[? ? ? ? ?]]; cbn [esize]; lia).
     assert (Hk' : (ssize q < k')%nat) by lia.
     cbn [flat_map]. rewrite <- app_assoc.
     remember (flat_map welem_toks q ++ stop :: rest) as TAIL.
-    destruct e as [kw| |toks it|key name|[key name vs ws es']]; cbn [welem_toks welem_ok welems_spec] in *.
+    destruct e as [kw| |toks it|key name|toks mk|[key name vs ws es']]; cbn [welem_toks welem_ok welems_spec] in *.
     + destruct (IH n dt q cls dcls (kty kw) aid stop rest Hk' Hq Hstop) as [f2 H2]. rewrite <- HeqTAIL in H2.
       exists f2. intros f Hge. cbn [app body]. rewrite He.
       change (H_process_access_specifier =? H_on_block_end) with false.
@@ -247,6 +262,9 @@ Proof.
       exists f2. intros f Hge. cbn [app].
       rewrite (body_step_fwd k' n f dt cls dcls acc aid _ _ _ _ _ _ (class_key_decl_head key He) (class_fwd_written key name TAIL He)).
       rewrite H2 by lia. reflexivity.
+    + destruct (He TAIL) as [f1 H1].
+      destruct (IH n dt q cls dcls acc aid stop rest Hk' Hq Hstop) as [f2 H2]. rewrite <- HeqTAIL in H2.
+      exists (Nat.max f1 f2). intros f Hge. rewrite (H1 f ltac:(lia)). rewrite H2 by lia. reflexivity.
     + destruct He as (Hkey & Hws & Hvs & Hin).
       assert (Hin' : welems_ok n dt name (dtor_of dt name) es').
       { clear - Hin. induction es' as [|x r IHr]; [exact I|]. destruct Hin as [A B]. split; [exact A|now apply IHr]. }
@@ -372,6 +390,7 @@ Inductive nelem :=
 | NStmt (toks : list tk) (it : nitem)          (* a declaration statement of the statement models *)
 | NClassE (w : wclass)
 | NFwdE (key name : N)
+| NOne (toks : list tk) (it : item)            (* any statement the loop reads in one step at namespace scope (abstract) *)
 | NNs (names : list N) (elems : list nelem)    (* namespace a::b { elems }   (no names: the anonymous namespace) *)
 | NExternB (l : tk) (elems : list nelem).      (* extern "C" { elems } *)
 
@@ -381,6 +400,7 @@ Fixpoint nelem_toks (e : nelem) : list tk :=
   | NStmt toks _ => toks
   | NClassE w => welem_toks (WClass w)
   | NFwdE key name => [ktok key; mkTk T_NAME name; ktok SEMI]
+  | NOne toks _ => toks
   | NNs names es => ktok T_namespace :: path_toks names ++ ktok LBRACE :: flat_map nelem_toks es ++ [ktok RBRACE]
   | NExternB l es => ktok T_extern :: l :: ktok LBRACE :: flat_map nelem_toks es ++ [ktok RBRACE]
   end.
@@ -391,9 +411,18 @@ Fixpoint nelem_spec (e : nelem) : list item :=
   | NStmt _ it => [INs it]
   | NClassE w => [wclass_spec 0 w]
   | NFwdE key name => [IFwd 0 [key] name]
+  | NOne _ it => [it]
   | NNs names es => [INamespace false names (flat_map nelem_spec es)]
   | NExternB l es => [IExtern (kval l) (flat_map nelem_spec es)]
   end.
+
+Definition one_step_ns (n : nat) (dt : list (N * N)) (toks : list tk) (it : item) : Prop :=
+  forall rest, exists f0, forall f, (f0 <= f)%nat -> forall k' aid,
+    body (S k') n f dt None 0 aid (toks ++ rest)
+    = match body k' n f dt None 0 aid rest with
+      | DOk (l, a, rr) => DOk (it :: l, a, rr)
+      | DErr e => DErr e
+      end.
 
 Fixpoint nelem_ok (n : nat) (dt : list (N * N)) (e : nelem) {struct e} : Prop :=
   match e with
@@ -401,6 +430,7 @@ Fixpoint nelem_ok (n : nat) (dt : list (N * N)) (e : nelem) {struct e} : Prop :=
   | NStmt toks it => ns_stmt_ok n toks it /\ (forall rest, class_stmt_head false (toks ++ rest) = CHNot)
   | NClassE w => welem_ok n dt anon_base anon_base (WClass w)
   | NFwdE key _ => class_key key
+  | NOne toks it => one_step_ns n dt toks it
   | NNs _ es => (fix all (l : list nelem) : Prop := match l with [] => True | x :: r => nelem_ok n dt x /\ all r end) es
   | NExternB l es => kty l = T_STRING_LITERAL /\
                      (fix all (l : list nelem) : Prop := match l with [] => True | x :: r => nelem_ok n dt x /\ all r end) es
@@ -512,7 +542,7 @@ Proof.
     cbn [flat_map]. rewrite <- app_assoc.
     destruct (IH n dt q aid T Hk' Hq HT) as [f2 H2].
     remember (flat_map nelem_toks q ++ T) as TAIL.
-    destruct e as [|toks it|w|key name|names es'|l es']; cbn [nelem_toks nelem_ok nelem_spec] in *.
+    destruct e as [|toks it|w|key name|toks it|names es'|l es']; cbn [nelem_toks nelem_ok nelem_spec] in *.
     + exists f2. intros f Hge. cbn [app body].
       change (assocN (kty (ktok SEMI)) tu_table) with (Some 0). cbn iota.
       change (0 =? H_on_block_end) with false. rewrite N.eqb_refl. cbn iota. now apply H2.
@@ -541,6 +571,8 @@ Proof.
     + exists f2. intros f Hge. cbn [app].
       rewrite (body_step_fwd_ns k' n f dt aid _ _ _ _ _ _ (class_key_decl_head key He) (class_fwd_written key name TAIL He)).
       rewrite H2 by lia. reflexivity.
+    + destruct (He TAIL) as [f1 H1].
+      exists (Nat.max f1 f2). intros f Hge. rewrite (H1 f ltac:(lia)). rewrite H2 by lia. reflexivity.
     + apply nall_ok in He. cbn [nsize] in Hk. rewrite nsum_eq in Hk.
       assert (Hrb : tail_ok (ktok RBRACE :: TAIL)) by reflexivity.
       destruct (IH n dt es' aid (ktok RBRACE :: TAIL) ltac:(lia) He Hrb) as [f1 H1].
